@@ -8,9 +8,9 @@ use yasna::Tag;
 #[cfg(feature = "pem")]
 use crate::ENCODE_CONFIG;
 use crate::{
-	dt_to_generalized, ensure_ia5, oid, write_distinguished_name, write_dt_utc_or_generalized,
-	write_x509_authority_key_identifier, write_x509_extension, Certificate, Error, Issuer,
-	KeyIdMethod, KeyPair, KeyUsagePurpose, SerialNumber,
+	dt_to_generalized, ensure_encodable_time, ensure_ia5, oid, write_distinguished_name,
+	write_dt_utc_or_generalized, write_x509_authority_key_identifier, write_x509_extension,
+	Certificate, Error, Issuer, KeyIdMethod, KeyPair, KeyUsagePurpose, SerialNumber,
 };
 
 /// A certificate revocation list (CRL)
@@ -216,6 +216,15 @@ impl CertificateRevocationListParams {
 
 		if let Some(issuing_distribution_point) = &self.issuing_distribution_point {
 			issuing_distribution_point.distribution_point.validate()?;
+		}
+
+		ensure_encodable_time(self.this_update)?;
+		ensure_encodable_time(self.next_update)?;
+		for revoked_cert in &self.revoked_certs {
+			ensure_encodable_time(revoked_cert.revocation_time)?;
+			if let Some(invalidity_date) = revoked_cert.invalidity_date {
+				ensure_encodable_time(invalidity_date)?;
+			}
 		}
 
 		Ok(CertificateRevocationList {
